@@ -182,6 +182,7 @@ struct Runner {
         signal(SIGALRM, on_alarm);
         if (worker_init) worker_init();
         Ctx c;
+        size_t flushedViol = 0;
         struct itimerval it;
         memset(&it, 0, sizeof it);
         for (uint64_t i = start; i < total; i += workers) {
@@ -201,6 +202,11 @@ struct Runner {
             exec_case(i, c);
             it.it_value.tv_sec = 0; it.it_value.tv_usec = 0;
             setitimer(ITIMER_REAL, &it, nullptr);
+            if (c.viol.size() > flushedViol) {   // persist violations at once: a later crash of this worker must not lose them
+                FILE* vf = fopen(path.c_str(), "a");
+                if (vf) { for (size_t k = flushedViol; k < c.viol.size(); k++) fprintf(vf, "V\t%s\nC\tviolations_flushed_early\t1\n", c.viol[k].c_str()); fclose(vf); }
+                flushedViol = c.viol.size();
+            }
             g_shared->done[w]++;
             c.cnt["evaluations"]++;
             if (c.viol.size() >= c.max_viol && c.cnt["violations"] > 2000) {  // drowning: stop early
@@ -209,6 +215,8 @@ struct Runner {
             }
         }
         g_shared->cur[w] = UINT64_MAX;
+        c.viol.erase(c.viol.begin(), c.viol.begin() + flushedViol);
+        c.cnt["violations_flushed_early"] = 0;
         write_ctx(path, c, 0);
         fflush(nullptr);
         _exit(0);
@@ -340,6 +348,10 @@ struct Runner {
             unlink(paths[w].c_str());
             unlink(errs[w].c_str());
         }
+        // workers that crashed lost their counters but not their (early flushed) violation records: never report fewer violations than are listed
+        uint64_t flushed = cnt["violations_flushed_early"]; cnt.erase("violations_flushed_early");
+        (void)flushed;
+        if (cnt["violations"] < viol.size()) cnt["violations"] = viol.size();
         for (auto& v : crash_viol) viol.insert(viol.begin(), v);
         cnt["violations"] += crashes + hangs;
         cnt["crashes"] = crashes; cnt["hangs"] = hangs; cnt["slow_but_terminating"] = slow_ok;
